@@ -172,17 +172,44 @@ fn c06_case(leg: &mut Leg, r: &mut Rng, case_seed: u64) {
                         if elapsed > min_ttl * 1000 {
                             viol.push(("served-past-ttl".into(), format!("min ttl {} s, served {} ms after it was obtained", min_ttl, elapsed)));
                         }
-                        let got: Vec<u32> = rep.answer.iter().chain(rep.nameserver.iter()).chain(rep.additional.iter()).map(|x| x.ttl).collect();
-                        let orig: Vec<u32> = outr.answer.iter().chain(outr.nameserver.iter()).chain(outr.additional.iter()).map(|x| x.ttl).collect();
-                        if got.len() != orig.len() {
-                            viol.push(("cached-reply-lost-records".into(), format!("{} != {}", got.len(), orig.len())));
+                        // Records are matched by what they ARE (section, owner, type, class, data), not by where they stand: the
+                        // order inside a section is not C06's subject (a cache may rotate an RRset).
+                        let ident = |sec: usize, x: &erbium::dns::dnspkt::RR| -> String {
+                            let mut y = x.clone();
+                            y.ttl = 0;
+                            format!("{}|{:?}", sec, y)
+                        };
+                        let mut got: std::collections::BTreeMap<String, Vec<u64>> = Default::default();
+                        let mut want: std::collections::BTreeMap<String, Vec<(u64, u64)>> = Default::default();
+                        let mut n_got = 0;
+                        let mut n_orig = 0;
+                        for (sec, (gs, os)) in [(&rep.answer, &outr.answer), (&rep.nameserver, &outr.nameserver), (&rep.additional, &outr.additional)].into_iter().enumerate() {
+                            for x in gs.iter() {
+                                got.entry(ident(sec, x)).or_default().push(x.ttl as u64);
+                                n_got += 1;
+                            }
+                            for x in os.iter() {
+                                want.entry(ident(sec, x)).or_default().push(((x.ttl as u64).saturating_sub(secs), x.ttl as u64));
+                                n_orig += 1;
+                            }
+                        }
+                        if n_got != n_orig || got.keys().ne(want.keys()) {
+                            viol.push(("cached-reply-lost-records".into(), format!("{} records served, {} obtained (or not the same records)", n_got, n_orig)));
                         } else {
-                            for (g, o) in got.iter().zip(orig.iter()) {
-                                let want = (*o as u64).saturating_sub(secs);
-                                if *g as u64 != want {
-                                    let class = if *g > *o { "ttl-grew" } else { "ttl-not-original-minus-elapsed" };
-                                    viol.push((class.into(), format!("original ttl {}, {} s elapsed, served ttl {} (want {})", o, secs, g, want)));
+                            'outer: for (k, gl) in got.iter_mut() {
+                                let wl = want.get_mut(k).unwrap();
+                                gl.sort();
+                                wl.sort();
+                                if gl.len() != wl.len() {
+                                    viol.push(("cached-reply-lost-records".into(), format!("{} copies served, {} obtained", gl.len(), wl.len())));
                                     break;
+                                }
+                                for (g, (w, o)) in gl.iter().zip(wl.iter()) {
+                                    if g != w {
+                                        let class = if g > o { "ttl-grew" } else { "ttl-not-original-minus-elapsed" };
+                                        viol.push((class.into(), format!("original ttl {}, {} s elapsed, served ttl {} (want {})", o, secs, g, w)));
+                                        break 'outer;
+                                    }
                                 }
                             }
                         }
